@@ -478,7 +478,9 @@ class TG:
                 body = body.replace("--", "-")
                 return "{{!--" + body + "--}}"
             body = body.replace("}}", "} ")
-            if body.startswith("--"):
+            if body.lstrip(" \t\r\n").startswith("--"):
+                # `{{! --x}}` : the grammar lets whitespace separate `{{!` from `--`, so this would OPEN a block comment
+                # that runs to the next `--}}` (known finding F20; listed witness in C08) – kept out of the random stream
                 body = "x" + body
             return "{{!" + body + "}}"
         if k == "raw":
